@@ -105,13 +105,15 @@ func GetInt64FromInstr(instr Instruction) (int64, error) {
 	case instr.Op == opcode.PUSHINT64:
 		return int64(binary.LittleEndian.Uint64(instr.Param)), nil
 	case instr.Op == opcode.PUSHINT128 || instr.Op == opcode.PUSHINT256:
+		// The upper bytes must be the sign extension of the lower eight.
+		var ext byte
+		if instr.Param[7] >= 0x80 {
+			ext = 0xff
+		}
 		for _, b := range instr.Param[8:] {
-			if b != 0 {
+			if b != ext {
 				return 0, errors.New("parameter is not int64")
 			}
-		}
-		if byte(instr.Param[7]) >= 0x80 {
-			return 0, errors.New("parameter is not int64")
 		}
 
 		return int64(binary.LittleEndian.Uint64(instr.Param)), nil
